@@ -38,6 +38,9 @@ mutual
   /-- `field.to_basic(cfg, value)` -/
   def toBasic (E : CodecEnv) : FieldSpec → Val → R Val
     | .mk kind _ _, v => toBasicKind E kind v
+  def toBasicOpt (E : CodecEnv) : Option FieldSpec → Val → R Val
+    | none, v => .ok v
+    | some f, v => toBasic E f v
   def toBasicKind (E : CodecEnv) : Kind → Val → R Val
     | .bytes enc, v =>
       match v with
@@ -59,24 +62,17 @@ mutual
     | .list item, v =>
       match v with
       | .none => .ok .none
-      | .list xs => toBasicItems E item xs
-      | .tuple xs => toBasicItems E item xs
+      | .list xs => (mapR (fun x => toBasicOpt E item x) xs).map .list
+      | .tuple xs => (mapR (fun x => toBasicOpt E item x) xs).map .list
       | _ => .error .type
     | .dict key value, v =>
       match v with
       | .none => .ok .none
       | .dict kvs =>
-        match key, value with
-        | none, none => .ok (.dict kvs)
-        | k, vf =>
-          let fk : Val → R Val := match k with | some f => fun x => toBasic E f x | none => fun x => .ok x
-          let fv : Val → R Val := match vf with | some f => fun x => toBasic E f x | none => fun x => .ok x
-          (mapPairs fk fv kvs).map (fun es => .dict (buildDict es))
+        if key.isNone && value.isNone then .ok (.dict kvs)
+        else (mapPairs (fun x => toBasicOpt E key x) (fun x => toBasicOpt E value x) kvs).map (fun es => .dict (buildDict es))
       | _ => .error .type
     | _, v => .ok v
-  def toBasicItems (E : CodecEnv) : Option FieldSpec → List Val → R Val
-    | none, xs => .ok (.list xs)
-    | some f, xs => (mapR (fun x => toBasic E f x) xs).map .list
 end
 
 /-- what iterating a loaded value yields when it is handed to `ListProxy(cfg, field, value)` -/
@@ -105,6 +101,18 @@ mutual
   /-- `field.to_python(cfg, value)` -/
   def toPython (E : CodecEnv) : FieldSpec → Val → R Val
     | .mk kind _ _, v => toPythonKind E kind v
+  def toPythonOpt (E : CodecEnv) : Option FieldSpec → Val → R Val
+    | none, v => .ok v
+    | some f, v => toPython E f v
+  /-- decode the items of a stored list (only lists and tuples are mapped; anything else is handed to the proxy as it is) -/
+  def decodeItems (E : CodecEnv) : Option FieldSpec → Val → Option (R (List Val))
+    | none, _ => none
+    | some (.mk k r c), v =>
+      if k.isAny then none else
+      match v with
+      | .list xs => some (mapR (fun x => toPython E (.mk k r c) x) xs)
+      | .tuple xs => some (mapR (fun x => toPython E (.mk k r c) x) xs)
+      | v => some (iterForList v)
   def toPythonKind (E : CodecEnv) : Kind → Val → R Val
     | .bytes enc, v =>
       match v with
@@ -139,36 +147,29 @@ mutual
       | some none => .ok .none
       | none => .error .value
     | .list item, v =>
-      match item with
+      -- decode the items, then build the proxy (which validates them)
+      match decodeItems E item v with
       | none => .ok v
-      | some (.mk .any _ _) => .ok v
-      | some f =>
-        -- decode the items of a list, then build the proxy (which validates them)
-        match v with
-        | .list xs => do
-          let ys ← mapR (fun x => toPython E f x) xs
-          (mapR (fun x => validate E.toEnv f x) ys).map .list
-        | .tuple xs => do
-          let ys ← mapR (fun x => toPython E f x) xs
-          (mapR (fun x => validate E.toEnv f x) ys).map .list
-        | v => do
-          let xs ← iterForList v
-          (mapR (fun x => validate E.toEnv f x) xs).map .list
+      | some (.error e) => .error e
+      | some (.ok ys) =>
+        match validateItems E.toEnv item ys with
+        | none => .ok (.list ys)
+        | some r => r.map .list
     | .dict key value, v =>
-      match key, value with
-      | none, none => .ok v
-      | k, vf =>
-        let pk : Val → R Val := match k with | some f => fun x => toPython E f x | none => fun x => .ok x
-        let pv : Val → R Val := match vf with | some f => fun x => toPython E f x | none => fun x => .ok x
-        let fk : Val → R Val := match k with | some f => fun x => validate E.toEnv f x | none => fun x => .ok x
-        let fv : Val → R Val := match vf with | some f => fun x => validate E.toEnv f x | none => fun x => .ok x
-        match v with
-        | .dict kvs => do
-          let dec ← mapPairs pk pv kvs
-          (mapEntries fk fv (buildDict dec)).map (fun es => .dict (buildDict es))
-        | v => do
-          let es ← iterForDict v
-          (mapEntries fk fv es).map (fun es => .dict (buildDict es))
+      if key.isNone && value.isNone then .ok v else
+      match v with
+      | .dict kvs =>
+        match mapPairs (fun x => toPythonOpt E key x) (fun x => toPythonOpt E value x) kvs with
+        | .error e => .error e
+        | .ok dec =>
+          (mapEntries (fun x => validateOpt E.toEnv key x) (fun x => validateOpt E.toEnv value x) (buildDict dec)).map
+            (fun es => .dict (buildDict es))
+      | v =>
+        match iterForDict v with
+        | .error e => .error e
+        | .ok es =>
+          (mapEntries (fun x => validateOpt E.toEnv key x) (fun x => validateOpt E.toEnv value x) es).map
+            (fun es => .dict (buildDict es))
     | _, v => .ok v
 end
 
